@@ -902,11 +902,13 @@ class Executor:
             return ("model", "Iterator::adaptor::" + norm.rsplit("::", 1)[1])
         if re.match(r"^Iterator::\w+::filter_map$", norm):
             return ("model", "Iterator::adaptor::filter_map")
+        if re.match(r"^Iterator::\w+::filter$", norm):
+            return ("model", "Iterator::adaptor::filter")
         if re.match(r"^Iterator::\w+::map$", norm):
             return ("model", "Iterator::adaptor::map")
         if re.match(r"^Iterator::\w+::flat_map$", norm):
             return ("model", "Iterator::adaptor::flat_map")
-        if norm in ("Iterator::FilterMap::collect", "Iterator::Map::collect", "Iterator::FlatMap::collect"):
+        if norm in ("Iterator::FilterMap::collect", "Iterator::Map::collect", "Iterator::FlatMap::collect", "Iterator::Filter::collect"):
             return ("model", "Iterator::FilterMap::collect")
         if norm in ("RepAsIteratorExt::Map::quote_into_iter", "RepAsIteratorExt::FilterMap::quote_into_iter", "Map::quote_into_iter", "FilterMap::quote_into_iter"):
             return ("model", "RepAsIteratorExt::Vec::quote_into_iter")
@@ -1744,6 +1746,21 @@ def iter_next_alts(ex, state, it):
                     st2.pc = list(pc)
                     st2.mem = dict(mem)
                     st2.events = st2.events + list(evs)
+                    if it.plain == "filter":
+                        # `iter.filter(pred)`: the element itself is yielded when the predicate holds, skipped otherwise
+                        b = ex.scalar_of(st2, val, "bool")
+                        for bv in ((True, False) if not isinstance(b, bool) else (b,)):
+                            c = None if isinstance(b, bool) else (b if bv else z3.Not(b))
+                            if c is not None and not ex.feasible(st2, c):
+                                continue
+                            st3 = st2.clone() if c is not None else st2
+                            if c is not None:
+                                st3.pc.append(c)
+                            if bv:
+                                alts.append((st3, Agg("adt", "Option", "Some", [opt.fields[0]]), FMap(inner1, it.closure, "filter")))
+                            else:
+                                todo.append((st3, inner1))
+                        continue
                     if it.plain:
                         alts.append((st2, Agg("adt", "Option", "Some", [val]), FMap(inner1, it.closure, True)))
                         continue
@@ -1967,13 +1984,15 @@ def m_iter_adaptor(ex, state, frame, dest, args, ret_block, work, callee):
     raise Inconclusive("iterator adaptor %s on %r" % (which, it))
 
 
-@model("Iterator::adaptor::filter_map", "Iterator::adaptor::map", "Iterator::adaptor::flat_map")
+@model("Iterator::adaptor::filter_map", "Iterator::adaptor::map", "Iterator::adaptor::flat_map", "Iterator::adaptor::filter")
 def m_filter_map(ex, state, frame, dest, args, ret_block, work, callee):
     it = _val(ex, state, args[0])
     if not isinstance(it, (IterS, IterL, FMap, FlatMap)):
-        raise Inconclusive("filter_map / map / flat_map over %r" % (it,))
+        raise Inconclusive("filter_map / map / flat_map / filter over %r" % (it,))
     if normalize_callee(callee).endswith("::flat_map"):
         return _ret(ex, state, frame, dest, FlatMap(it, args[1]), ret_block)
+    if normalize_callee(callee).endswith("::filter"):
+        return _ret(ex, state, frame, dest, FMap(it, args[1], "filter"), ret_block)
     return _ret(ex, state, frame, dest, FMap(it, args[1], normalize_callee(callee).endswith("::map")), ret_block)
 
 
